@@ -84,16 +84,17 @@ def wsdl_text(d, split=False):
             # (WSDL 1.1 does not name the rpc response wrapper; the message is named by the usual
             #  <operation>Response convention so that no reading of the standard is privileged)
             msgs.append(f'<message name="{n}Response"><part name="r" type="xsd:string"/></message>')
-        if o["fault"]:
-            els.append(f'<xsd:element name="{n}Fault"><xsd:complexType><xsd:sequence><xsd:element name="reason" type="xsd:string"/></xsd:sequence></xsd:complexType></xsd:element>')
-            msgs.append(f'<message name="{n}FaultMsg"><part name="fault" element="tns:{n}Fault"/></message>')
-        flt = f'<fault name="{n}Fault" message="tns:{n}FaultMsg"/>' if o["fault"] else ""
+        fnames = [f"{n}Fault", f"{n}Fault2"][: o.get("nfaults", 1)] if o["fault"] else []
+        for fn in fnames:
+            els.append(f'<xsd:element name="{fn}"><xsd:complexType><xsd:sequence><xsd:element name="reason" type="xsd:string"/></xsd:sequence></xsd:complexType></xsd:element>')
+            msgs.append(f'<message name="{fn}Msg"><part name="fault" element="tns:{fn}"/></message>')
+        flt = "".join(f'<fault name="{fn}" message="tns:{fn}Msg"/>' for fn in fnames)
         outm = f"{n}Out" if eff_style(d, o) == "document" else f"{n}Response"
         pops.append(f'<operation name="{n}"><input message="tns:{n}In"/><output message="tns:{outm}"/>{flt}</operation>')
         style = f' style="{o["style"]}"' if o["style"] else ""
         nsattr = f' namespace="{tns}"' if eff_style(d, o) == "rpc" else ""
         hdr = '<soap:header message="tns:AuthHeader" part="auth" use="literal"/>' if o["header"] else ""
-        bflt = f'<fault name="{n}Fault"><soap:fault name="{n}Fault" use="literal"/></fault>' if o["fault"] else ""
+        bflt = "".join(f'<fault name="{fn}"><soap:fault name="{fn}" use="literal"/></fault>' for fn in fnames)
         body_ext = f'<soap:body use="literal"{nsattr}/>'
         # both (valid) orders of the extension elements occur: header first for names of even length
         inp = (hdr + body_ext) if len(n) % 2 == 0 else (body_ext + hdr)
@@ -246,9 +247,13 @@ def _norm(e):
 
 
 def response_xml(d, o, fault=False):
+    """fault: False (normal response), True / "first" (a fault carrying the first declared detail element),
+    "second" (only the second declared one), "nodetail" (a fault without detail: faults raised while processing
+    the header carry none)."""
     tns = d["tns"]
     if fault:
-        detail = f'<detail><t:{o["name"]}Fault xmlns:t="{tns}"><t:reason>why</t:reason></t:{o["name"]}Fault></detail>' if o["fault"] else ""
+        which = f'{o["name"]}Fault2' if fault == "second" else f'{o["name"]}Fault'
+        detail = f'<detail><t:{which} xmlns:t="{tns}"><t:reason>why</t:reason></t:{which}></detail>' if o["fault"] and fault != "nodetail" else ""
         body = f"<e:Fault><faultcode>e:Server</faultcode><faultstring>boom</faultstring>{detail}</e:Fault>"
     elif eff_style(d, o) == "document":
         body = f'<t:{o["name"]}Response xmlns:t="{tns}"><t:r>pong</t:r></t:{o["name"]}Response>'
@@ -259,7 +264,7 @@ def response_xml(d, o, fault=False):
 
 def exchange(ctx, d, o, svc, xctx, req, oinfo):
     supported = d["transport"] == "http://schemas.xmlsoap.org/soap/http"
-    for fault in (False, True):
+    for fault in (False, True, "nodetail") + (("second",) if o["fault"] and o.get("nfaults", 1) == 2 else ()):
         resp = response_xml(d, o, fault)
         tr = Recording(resp)
         client = Client.from_service(svc)
@@ -302,7 +307,7 @@ def exchange(ctx, d, o, svc, xctx, req, oinfo):
             f = getattr(body, "fault", None)
             if f is None or f.faultstring != "boom" or f.faultcode != "e:Server" and not str(f.faultcode).endswith("Server"):
                 ctx.violation(f"SOAP fault not bound: {body!r}", {**oinfo, "response": resp.decode()})
-            elif o["fault"] and (f.detail is None or "why" not in repr(f.detail)):
+            elif o["fault"] and fault != "nodetail" and (f.detail is None or "why" not in repr(f.detail)):
                 ctx.violation(f"fault detail not bound: {f!r}", {**oinfo, "response": resp.decode()})
         elif "pong" not in repr(body):
             ctx.violation(f"response value not bound: {body!r}", {**oinfo, "response": resp.decode()})
